@@ -1445,7 +1445,7 @@ Proof.
     + assert (EBr : Br x = B x) by (apply (Br_bases g root R0); fold B; rewrite EB; discriminate).
       assert (HL : forall b, In b (Br x) -> c3_lin Br (S F) b = Some (M b) /\ Lin Br b (M b)).
       { intros b Hb. rewrite EBr in Hb. destruct (W x) as [_ Rk]. specialize (Rk _ Hb).
-        assert (Hn : c3_lin Br (S (S F)) b <> None) by (apply HB; fold B; rewrite <- EB; auto).
+        assert (Hn : c3_lin Br (S (S F)) b <> None) by (apply HB; exact Hb).
         destruct (c3_lin Br (S (S F)) b) as [l|] eqn:Cb; [|congruence].
         assert (Cb' : c3_lin Br (S F) b = Some l).
         { rewrite <- Cb. apply (c3_lin_fuel Br (rk_rooted rk root) Wr); unfold rk_rooted;
